@@ -409,6 +409,31 @@ def main():
     boolean("inviteRequiresRelay", refuses_empty_relays(cg) and refuses_empty_relays(am),
             "groups.rs create_group / add_members return Err(Error::Group) when members are invited and the relay set is empty")
 
+    # ---- media facts (C17, media part): scheme label, HKDF context / AAD construction --------------------
+    cr2 = strip_comments(non_test(read("crates/mdk-core/src/encrypted_media/crypto.rs")))
+    lab = fn_body(cr2, "get_scheme_label", "fn:get_scheme_label")
+    mlab = re.search(r'"' + re.escape(facts["defaultSchemeVersion"][2].split('= "')[-1].rstrip('"')) + r'"\s*=>\s*Ok\(\s*b"([^"]+)"\s*\)', lab)
+    if not mlab:
+        raise Missing("media:scheme-label")
+    strfact("mediaSchemeLabel", mlab.group(1), "crypto.rs get_scheme_label(DEFAULT_SCHEME_VERSION)")
+    def pieces(body, var):
+        """the sequence of extend_from_slice / push operations on `var`"""
+        seq = []
+        for m in re.finditer(re.escape(var) + r"\.(extend_from_slice|push)\(\s*(.*?)\s*\)\s*;", body):
+            arg = re.sub(r"\.as_bytes\(\)", "", m.group(2)).replace("&", "").strip()
+            seq.append(("nul" if (m.group(1) == "push" and arg in ("0x00", "0", "0u8")) else arg))
+        return seq
+    ctx_seq = pieces(fn_body(cr2, "build_hkdf_context", "fn:build_hkdf_context"), "context")
+    aad_seq = pieces(fn_body(cr2, "build_aad", "fn:build_aad"), "aad")
+    boolean("mediaContextAsModelled", ctx_seq == ["scheme_label", "nul", "file_hash", "nul", "mime_type", "nul", "filename", "nul", "suffix"],
+            "crypto.rs build_hkdf_context = label 00 hash 00 mime 00 filename 00 suffix: " + " ".join(ctx_seq))
+    boolean("mediaAadAsModelled", aad_seq == ["scheme_label", "nul", "file_hash", "nul", "mime_type", "nul", "filename"],
+            "crypto.rs build_aad = label 00 hash 00 mime 00 filename: " + " ".join(aad_seq))
+    mk = re.search(r'build_hkdf_context\(\s*scheme_label\s*,\s*original_hash\s*,\s*mime_type\s*,\s*filename\s*,\s*b"([^"]+)"\s*\)', cr2)
+    if not mk:
+        raise Missing("media:key-suffix")
+    strfact("mediaKeySuffix", mk.group(1), "crypto.rs derive_encryption_key_with_secret context suffix")
+
     # ---- emit -------------------------------------------------------------------------------
     lines = ["/- GENERATED by tools/gen_model.py from the current /repo source — do not edit. -/",
              "namespace MdkVerif.Generated", ""]
